@@ -127,6 +127,9 @@ BASES = [(b, C04.CONFIG) for b in C04.BASES] + [
     (("improper-logging", "print-statements", "py", {"main.py": MAIN_PY}), C04.CONFIG),
     # TypeScript command-query separation: a fluent method (ends in `return this;`, exempt) next to a mixed one
     (("cqs", "cqs", "ts", {"main.ts": CQS_TS}), C04.CONFIG),
+    # the same script without an extension: its language is known from the `#!` line only (edits above that line would
+    # change a documented fact and are left out; a byte-order mark in front of it is an edit like any other)
+    (("improper-logging", "print-statements", "py", {"tool": "#!/usr/bin/env python3\n" + MAIN_PY}), C04.CONFIG),
 ]
 
 
@@ -282,6 +285,8 @@ def job(j: dict) -> dict:
                 ats = [a for a in range(1, len(src_lines) + 1) if a in ok and (a + 1) in ok and not src_lines[a - 1].rstrip().endswith("\\")]
             if linter in ("file-header", "lazy-ignores"):
                 ats = [a for a in ats if a > 12]
+            if "." not in main:
+                ats = [a for a in ats if a > 1]
             if j.get("sweep_step", 1) > 1:
                 ats = ats[j["sweep_phase"] % j["sweep_step"]::j["sweep_step"]]
             expanded += [{"edits": [dict(case["edits"][0], at_line=a)]} for a in ats]
@@ -291,6 +296,8 @@ def job(j: dict) -> dict:
         if linter in ("file-header", "lazy-ignores") and any(e["pos"] == 0 and e["kind"] in ("blank", "comment")
                                                              for e in case["edits"]):
             continue      # header-sensitive linters: only edits below the header
+        if "." not in main and any(e["pos"] == 0 and e["kind"] in ("blank", "comment") for e in case["edits"]):
+            continue      # a script known by its first line: nothing is inserted above that line
         new, concrete = apply_edits(padded[main], lang, case["edits"])
         root = Path(j["root"]) / f"c{ci}"
         root.mkdir()
@@ -326,7 +333,7 @@ def job(j: dict) -> dict:
         from src.api import Linter as _Linter
         held = _Linter(project_root=str(rootv))
         base_v = lint(rootv, names, held)
-        usable = [c for c in j["cases"] if c["edits"][0]["pos"] != 4 and not (linter in ("file-header", "lazy-ignores") and any(
+        usable = [c for c in j["cases"] if c["edits"][0]["pos"] != 4 and not ((linter in ("file-header", "lazy-ignores") or "." not in main) and any(
             e["pos"] == 0 and e["kind"] in ("blank", "comment") for e in c["edits"]))]
         picked = rnd.sample(usable, min(j.get("inplace_len", 8), len(usable)))
         if variant != "plain":
